@@ -1,5 +1,5 @@
 #!/bin/bash
 # runall.sh [tier]: every check on the current tree, four at a time (evidence is rewritten)
-cd /verif; T=${1:-quick}
+cd "$(dirname "$(realpath "$0")")"; T=${1:-quick}
 ls coq/Props/ >/dev/null
 printf '%s\n' C01 C02 C03 C04 C05 C06 C07 C08 C09 C10 C11 C12 C13 C14 C15 C16 C17 C18 C19 C20 | xargs -P 4 -I{} sh -c "./check {} --tier $T 2>&1 | grep -v '^KNOWN\|^  ' | tail -2"
